@@ -130,6 +130,9 @@ func runC03(cases []string, out *bufio.Writer, _ []string) {
 				defer wg.Done()
 				for i := 0; i < ne; i++ {
 					log.Info(ctx, tag, log.Msg(c03Payload(g, i, size(g, i))), log.Int("g", g))
+					if sink == "rolling" && i%8 == 7 { // stretch the run over at least one real rotation boundary (1 s interval)
+						time.Sleep(time.Duration(1300*8/ne) * time.Millisecond)
+					}
 				}
 			}(g)
 		}
